@@ -20,6 +20,7 @@ inductive Fault where
   | nilObj       -- marker: Go would place a nil `geom.Geom` (entry.obj of a child entry) in a result
   | indexRange   -- slice index / slice bounds out of range
   | choice       -- a choice function answered outside its range (never happens for `goHeur`)
+  | nnNil        -- the explicit `panic` of NearestNeighbor when no object was found (C12)
 deriving DecidableEq, Repr
 
 /-- `geom.Bounds` with exact coordinates. -/
